@@ -18,6 +18,10 @@ const prelude = `(set-logic ALL)
 (declare-fun ifptr (Int) Int)
 (declare-fun ifval (Int) Int)
 (declare-fun iftype (Int) Int)
+(declare-fun ifsarr (Int) Int)
+(declare-fun ifsoff (Int) Int)
+(declare-fun ifslen (Int) Int)
+(declare-fun ifscap (Int) Int)
 (declare-fun subtag (Int) Int)
 (declare-fun arrtag (Int) Int)
 (declare-fun band (Int Int) Int)
@@ -314,6 +318,58 @@ func (g *Gen) findLoops() {
 		li.modAll = ms.All
 		li.modHeap = ms.Names
 	}
+	// ghost assignments (`callupdate`) change their ghost variable in every loop that contains the call site
+	if g.spec != nil {
+		hasUpd := false
+		for i := range g.spec.CallAsserts {
+			if g.spec.CallAsserts[i].Upd != nil {
+				hasUpd = true
+			}
+		}
+		if hasUpd {
+			count := map[string]int{}
+			for _, b := range g.topoOrder() {
+				for _, in := range b.Instrs {
+					c, ok := in.(*ssa.Call)
+					if !ok {
+						continue
+					}
+					name := callSiteName(c.Common())
+					if name == "" {
+						continue
+					}
+					count[name]++
+					for i := range g.spec.CallAsserts {
+						ca := &g.spec.CallAsserts[i]
+						if ca.Upd == nil || ca.Callee != name || ca.N != count[name] {
+							continue
+						}
+						if gf := g.P.ghostVar(ca.Upd.Ghost); gf != nil {
+							for _, li := range g.loops {
+								if li.blocks[b] {
+									li.modHeap["ghost|"+gf.Name] = true
+								}
+							}
+						}
+					}
+				}
+			}
+		}
+	}
+}
+
+// callSiteName: the name under which `callassert` / `callupdate` clauses address a call ("" = not addressable)
+func callSiteName(cc *ssa.CallCommon) string {
+	if _, ok := cc.Value.(*ssa.Builtin); ok {
+		return ""
+	}
+	if cc.IsInvoke() {
+		return typeName(cc.Value.Type()) + "." + cc.Method.Name()
+	}
+	if fn, ok := cc.Value.(*ssa.Function); ok {
+		return fnDisplayName(fn)
+	}
+	return ""
 }
 
 // loopKey: position used for ordering loops = smallest position of any instruction in the header or,
@@ -450,6 +506,20 @@ func (P *Program) blocksModSet(fn *ssa.Function, blocks map[*ssa.BasicBlock]bool
 					}
 					ms.merge(P.modSetOf(callee))
 					continue
+				}
+				// a call of a function-typed parameter declared purefunc/detfunc has no effect
+				if prm := funcParamOf(cc.Value); prm != nil {
+					if sp := P.bodySpecOf(fn); sp != nil {
+						pure := false
+						for _, pp := range sp.PureParams {
+							if pp == prm.Name() {
+								pure = true
+							}
+						}
+						if pure {
+							continue
+						}
+					}
 				}
 				ms.All = true
 			case *ssa.MakeSlice, *ssa.MakeMap, *ssa.MakeClosure, *ssa.Convert:
@@ -639,21 +709,26 @@ func (g *Gen) mergeStates(b *ssa.BasicBlock, es []inEdge) *State {
 					ps = append(ps, fmt.Sprintf("(x%d %s)", i, a))
 					as = append(as, fmt.Sprintf("x%d", i))
 				}
-				body := ""
-				for i := len(es) - 1; i >= 0; i-- {
-					app := syms[i]
-					if len(as) > 0 {
-						app = "(" + syms[i] + " " + strings.Join(as, " ") + ")"
-					}
-					if body == "" {
-						body = app
-					} else {
-						body = ite(guards[i], app, body)
-					}
-				}
 				g.n++
 				s := sym(fmt.Sprintf("%s@j!%d", n, g.n))
-				g.emit(fmt.Sprintf("(define-fun %s (%s) %s %s)", s, strings.Join(ps, " "), ret, body))
+				if len(as) == 0 {
+					body := ""
+					for i := len(es) - 1; i >= 0; i-- {
+						if body == "" {
+							body = syms[i]
+						} else {
+							body = ite(guards[i], syms[i], body)
+						}
+					}
+					g.emit(fmt.Sprintf("(define-fun %s (%s) %s %s)", s, strings.Join(ps, " "), ret, body))
+				} else {
+					// uninterpreted, one guarded defining equation per edge (usable in patterns; see heapSym)
+					g.emit(fmt.Sprintf("(declare-fun %s %s)", s, sig))
+					app := "(" + s + " " + strings.Join(as, " ") + ")"
+					for i := range es {
+						g.emit(fmt.Sprintf("(assert (=> %s (forall (%s) (! (= %s (%s %s)) :pattern (%s)))))", guards[i], strings.Join(ps, " "), app, syms[i], strings.Join(as, " "), app))
+					}
+				}
 				h.m[n] = s
 				continue
 			}
